@@ -131,4 +131,21 @@ RefSatisfiable == (Done /\ kw = "" /\ role = "component") =>
                       /\ CaseRule("component", RefSnake(name))
                       /\ Recoverable(name, RefSnake(name))
 NameWF == Done => (kw # "" \/ (name[Len(name)] # "-" /\ \A i \in 1..(Len(name) - 1) : ~(name[i] = "-" /\ name[i+1] = "-")))
+
+(* ---- derived identifiers: the default function of a component ------------------------------------------ *)
+\* A DEFAULT component c of a type T gets a function  <snake of T's Rust name>_<snake of c>_default ; it is named at three
+\* sites: where it is defined, in the component's default annotation, and in the `impl Default` of a type whose components
+\* all have a DEFAULT.  The Rust name of T is its title-case form (hyphens removed, the letter after a hyphen raised).
+RECURSIVE TitleFrom(_, _, _)
+TitleFrom(a, i, up) == IF i > Len(a) THEN <<>>
+                       ELSE IF a[i] = "-" THEN TitleFrom(a, i + 1, TRUE)
+                       ELSE <<IF up THEN (IF a[i] \in LowerSet THEN Uppers[CHOOSE k \in 1..26 : Lowers[k] = a[i]] ELSE a[i]) ELSE a[i]>> \o TitleFrom(a, i + 1, FALSE)
+Title(a) == TitleFrom(a, 1, TRUE)
+\* Site = which name of the parent the site starts from: "rust" (the item's identifier) or "asn1" (the ASN.1 spelling)
+DefaultFnParent(site, a) == IF site = "rust" THEN Snake(Title(a)) ELSE Snake(a)
+\* the sites agree on every type name iff they start from the same name: snake case of the title-case form loses the word
+\* boundary a hyphen marks after an upper-case run (PDU-Config: pduconfig vs. pdu_config)
+DefaultFnAgreement(siteDef, siteUse) == (Done /\ kw = "" /\ role = "type") => DefaultFnParent(siteDef, name) = DefaultFnParent(siteUse, name)
+SitesAgreeCode == DefaultFnAgreement("rust", "rust")
+SitesAgreeMixed == DefaultFnAgreement("rust", "asn1")     \* the tree before the repair: refuted (MC_C16_defaultfn.cfg)
 =============================================================================
